@@ -849,3 +849,40 @@ def r5(cx):
         cx.violation(b.fn, 'volatile-reuses-foreign-entry', 'a temporary assignment can reuse, in place, a variable that belongs to another context '
                      '(e.g. the enclosing command\'s temporary assignment): the inner value overwrites the outer one and outlives the inner command',
                      loc=b.loc(lasts[0][1]), path=Q.render_path(b, p))
+
+
+@RS.rule('C16.R6', 'K-TAINT', 'a context number is never used as a position in a per-name variable stack (the stack holds only the contexts that define the name)')
+def r6(cx):
+    F = cx.F
+    SRC = [Q.re.compile(r'^yash_env::variable::VariableSet::index_of_(context|topmost_regular_context)$')]
+    STACK_SINKS = [Q.re.compile(r'Index<I>>::index$|IndexMut<I>>::index_mut$|Index<.*>::index$|IndexMut<.*>::index_mut$'),
+                   Q.re.compile(r'^alloc::vec::Vec::<T, A>::(drain|truncate|split_off|remove|swap_remove|insert)$'),
+                   Q.re.compile(r'^core::slice::<impl \[T\]>::(get|get_mut|split_at|split_at_mut)$')]
+    n_src = 0
+    for b in F.bodies_in(['yash_env::variable::']):
+        srcs = [(blk, t) for blk, t in b.calls() if Q.callee_is(t, SRC)]
+        if not srcs:
+            continue
+        cx.fn(b.fn)
+        du = Q.DefUse(b)
+        for blk, t in srcs:
+            n_src += 1
+            cx.site('%s: context number computed at %s' % (b.fn, b.loc(t)))
+            tainted = Q.forward_taint(b, {t['dest']['l']}, through_calls=[Q.re.compile(r'core::ops::arith::(Add|Sub)')])
+            # ranges built from it
+            for sb, j, s in b.stmts():
+                if s['k'] == 'assign' and s['rv']['k'] == 'agg' and 'core::ops::range::' in (s['rv'].get('adt') or ''):
+                    if any(Q.operand_local(o) in tainted for o in s['rv']['ops'] if Q.operand_local(o) is not None):
+                        tainted.add(s['lhs']['l'])
+            for sb, st in b.calls():
+                if not Q.callee_is(st, STACK_SINKS):
+                    continue
+                recv_ty = (st.get('at') or [''])[0]
+                if 'VariableInContext' not in recv_ty:
+                    continue       # indexing `contexts` (Vec<Context>) by a context number is what the number is for
+                if any(Q.operand_local(a) in tainted for a in st['a'][1:] if Q.operand_local(a) is not None):
+                    cx.violation(b.fn, 'context-number-as-stack-position:%s' % pp.callee(st).split('::')[-1],
+                                 'the number of a context is used as a position in the stack of variables that share a name; that stack has '
+                                 'an entry only for the contexts defining the name, so the wrong entries are selected (a local variable is not '
+                                 'unset) or the index is out of range (panic)', loc=b.loc(st))
+    cx.floor(n_src, 2, 'context-number computations in yash_env::variable')
